@@ -48,8 +48,19 @@ func indexObject(p *lang.Process, params []string) error {
 		}
 		i++
 	})
+	if err != nil {
+		return err
+	}
 
-	return err
+	if !p.IsNot {
+		for num := range lines {
+			if num >= i {
+				return fmt.Errorf("key '%d' greater than number of items in array", num)
+			}
+		}
+	}
+
+	return nil
 }
 
 func indexTable(p *lang.Process, params []string) error {
